@@ -5,6 +5,8 @@ paths(f): every entry->exit path of the CFG with loops taken at most
 functions this is used on have a handful of branches, so the enumeration is
 exhaustive (a cap turns into 'analysis broken', never into a pass).
 """
+import re
+
 from .engine import CALLS, CTORS, WRAPPERS, callee_fq, path, unwrap, PASS_THROUGH_FUNCS
 
 
@@ -99,6 +101,10 @@ def operand(f, st):
         return "true" if st["v"] else "false"
     if k == "IntegerLiteral":
         return st["v"]
+    if k == "CXXMemberCallExpr" and (st.get("callee") or {}).get("name") == "operator bool" and st.get("obj") and \
+            re.match(r"^std::(optional|unique_ptr|shared_ptr|__shared_ptr|weak_ptr|function)\b", (st["callee"].get("rec") or "")):
+        # `if (opt)` / `if (ptr)`: the truth of the object itself (engaged / non-null)
+        return path(f, f.s(st["obj"]))
     return path(f, st)
 
 
